@@ -71,7 +71,12 @@ impl Numeric {
                 )
             }
             Parity::Float(left, right) => {
-                (Numeric::Float(left / right), Numeric::Float(left % right))
+                // The quotient is a whole number here too, as in the
+                // rational case (`%` already pairs with truncation).
+                (
+                    Numeric::Float((left / right).trunc()),
+                    Numeric::Float(left % right),
+                )
             }
         }
     }
